@@ -153,6 +153,30 @@ pub fn pair() -> (ClientEnd, ServerEnd) {
     (ClientEnd(sh.clone()), ServerEnd { sh, buf: vec![], log: vec![], sent_bytes: 0 })
 }
 
+/// Cloneable sending half of the server end (for delayed / out-of-order responders).
+#[derive(Clone)]
+pub struct Tx(pub Shared);
+
+impl Tx {
+    pub fn send(&self, bytes: &[u8]) {
+        if bytes.is_empty() {
+            return;
+        }
+        let mut s = self.0.lock().unwrap();
+        s.to_client.push_back(Item::Data(bytes.to_vec()));
+        if let Some(w) = s.client_waker.take() {
+            w.wake();
+        }
+    }
+    pub fn eof(&self) {
+        let mut s = self.0.lock().unwrap();
+        s.to_client.push_back(Item::Eof);
+        if let Some(w) = s.client_waker.take() {
+            w.wake();
+        }
+    }
+}
+
 #[derive(Clone, Copy, Debug, PartialEq, Eq)]
 pub enum Chunking {
     Whole,
@@ -207,6 +231,9 @@ impl ServerEnd {
                 }
             }
         }
+    }
+    pub fn tx(&self) -> Tx {
+        Tx(self.sh.clone())
     }
     pub fn eof(&mut self) {
         let mut s = self.sh.lock().unwrap();
